@@ -132,9 +132,11 @@ def overlap_data(nw, mp_grid, kind, rng):
     if kind == "identity":
         return {ik: np.eye(nw, dtype=complex) for ik in range(nk)}
     out = {}
-    base = rng.normal(size=(nw, nw)) + 1j * rng.normal(size=(nw, nw))
-    for ik in range(nk):
-        out[ik] = np.eye(nw) + 0.2 * base
+    base = [rng.normal(size=(nw, nw)) + 1j * rng.normal(size=(nw, nw)) for _ in range(3)]
+    kpt = mp_kpoints(mp_grid)
+    for ik in range(nk):   # k-dependent (harmonics R=(1,0,0) and (0,1,1)): the overlap has weight away from R=0
+        out[ik] = (np.eye(nw) + 0.2 * base[0] + 0.15 * base[1] * np.exp(2j * np.pi * kpt[ik][0])
+                   + 0.1 * base[2] * np.exp(2j * np.pi * (kpt[ik][1] + kpt[ik][2])))
     return out
 
 
